@@ -23,24 +23,26 @@ extern "C" void h_EntityWfState()
 /* final state assignment of ReadInstance: a working-session file keeps the state read from the letter */
 extern "C" void h_ReadInstance_state()
 {
-    IN(int, in_sev); IN(int, in_state); IN(int, in_ftype); IN(int, in_incr); IN(int, in_id);
+    IN(int, in_sev); IN(int, in_state); IN(int, in_ftype); IN(int, in_incr); IN(int, in_id); IN(int, in_strict); IN(int, in_path);
     __CPROVER_assume(in_incr >= 0 && in_incr <= 1000000000 && in_id >= 0 && in_id <= 1000000000);
     STEPfile *f = mk_file();
     MgrNode *node = mk_node();
     __CPROVER_assume(in_sev >= SEVERITY_MAX && in_sev <= SEVERITY_NULL);
     __CPROVER_assume(in_state == completeSE || in_state == incompleteSE || in_state == newSE || in_state == deleteSE);
     __CPROVER_assume(in_ftype == VERSION_CURRENT || in_ftype == WORKING_SESSION);
-    f->_fileType = (FileTypeCode)in_ftype; f->_strict = false; f->_fileIdIncr = in_incr;
+    f->_fileType = (FileTypeCode)in_ftype; f->_strict = in_strict != 0; f->_fileIdIncr = in_incr;
     node->currState = (stateEnum)in_state; node->se = (SDAI_Application_instance *)malloc(sizeof(SDAI_Application_instance));
     if (in_ftype == VERSION_CURRENT) __CPROVER_assume(in_state == newSE);   /* pass 2 of an exchange file works on the nodes pass 1 created */
     g_node = node; g_read_sev = (Severity)in_sev; g_read_calls = 0; g_int_value = in_id;
     /* "#5 = ( ... ) ;" : the '=' and the '(' that select the reading path, everything else is read by the stubs */
-    g_stream_arbitrary = 0; g_stream_script[0] = '='; g_stream_script[1] = '('; g_stream_script[2] = ';'; g_stream_len = 3;
+    g_stream_arbitrary = 0; g_stream_script[0] = '='; g_stream_script[1] = in_path ? 'K' : '(';   /* simple instance (keyword) or complex instance */ g_stream_script[2] = ';'; g_stream_len = 3;
     istream in; in._m_state = 0; in._m_have = 0; in._m_consumed = 0;
     ostream out; std::string cmt;
     SDAI_Application_instance *r = f->ReadInstance(in, out, cmt, true);
     __CPROVER_assert(g_find_id == in_id + in_incr, "C14 an instance #n of a file read with id offset k is looked up as instance n+k");
+    __CPROVER_assert(g_read_calls == 1 && r == node->se, "an instance that pass 1 created is read exactly once, on the simple and on the complex path, and returned");
     if (g_read_calls == 1) {
+        __CPROVER_assert(g_read_strict == (in_strict != 0), "C15 the reader's strict / lenient setting reaches the instance reader unchanged, for simple and complex instances");
         __CPROVER_assert(g_read_id == in_id + in_incr && g_read_incr == in_incr && g_read_mgr == &f->_instances, "C14 the instance is read under its shifted id, and the same offset is handed down for the references inside it");
         if (in_ftype == WORKING_SESSION)
             __CPROVER_assert(node->currState == (stateEnum)in_state, "C16 reading a working-session instance keeps the editing state given by its state letter, whatever the read severity");
